@@ -95,7 +95,8 @@ Touched(r, q) == ~BagEq(CidBag(r.tampered.data.trace, q), CidBag(r.orig.trace, q
 ModelRejectsInPrep(r) ==
     \/ ~r.tampered.store_ok
     \/ r.case.particle = "other"
-    \/ r.case.op = "swap_sig" \/ r.case.op2 = "swap_sig"
+    \* exchanging the signatures of A and M twice restores them: they are exchanged iff exactly one swap was applied
+    \/ (r.case.op = "swap_sig") # (r.case.op2 = "swap_sig")
     \/ \E q \in AttributedPeers(r.tampered.data.trace) \cup AttributedPeers(r.orig.trace) :
           \/ (q \in AttributedPeers(r.tampered.data.trace) /\ ~SigOk(r, q))
           \/ (SigOk(r, q) /\ Honest(q) /\ Touched(r, q))
